@@ -34,6 +34,12 @@ def run(ck: Check, repo: Repo) -> None:
     ck.rule("C12.7", "copy mode: with copy=True the observations handed to the caller own their memory (deep copy at the return site, or the "
                      "reader itself allocates), so a later step cannot overwrite an observation already returned")
     worker = repo.fn(AV, "_async_worker")
+    ck.rule("C12.8", "seeding: reset(seed=s) with an integer s resets environment i with s + i for EVERY integer (0 included): the 'no seed' case is recognised by "
+                     "`seed is None`, not by truthiness")
+    ck.rule("C12.9", "info masks are per key: the default mask of a key seen for the first time is allocated for that key (a mask object shared between keys "
+                     "marks environments that never reported the key)")
+    _seeding(ck, repo)
+    _info_masks(ck, repo)
     _copy_mode(ck, repo)
     _reset_obs(ck, repo, worker)
     _dead_stores(ck, repo)
@@ -590,6 +596,8 @@ _AV = "agilerl/vector/pz_async_vec_env.py"
 _PV = "agilerl/vector/pz_vec_env.py"
 _WR = "agilerl/wrappers/pettingzoo_wrappers.py"
 VARIANTS = [
+    ("reset-seed-zero-unseeded", _AV, "        if seed is None:\n            seed = [None for _ in range(self.num_envs)]", "        if not seed:\n            seed = [None for _ in range(self.num_envs)]", "fire", "C12.8"),
+    ("info-masks-share-one-array", _AV, "            array_mask = vector_infos.get(\n                f\"_{key}\", np.zeros(self.num_envs, dtype=np.bool_)\n            )", "            array_mask = vector_infos.get(f\"_{key}\", new_mask)", "fire", "C12.9"),
     ("reset-obs-dead", _AV, "                    observation, info = env.reset()\n                    transition = observation, reward, terminated, truncated, info\n", "                    observation, info = env.reset()\n", "fire", "C12.1"),
     ("placeholder-dead", _AV, "        transition_list[idx] = {", "        transition = {", "fire", "C12.2"),
     ("placeholder-ones-like", _AV, "                return -np.ones(agent_space.shape)", "                return -np.ones_like(agent_space.shape)", "fire", "C12.3"),
@@ -626,6 +634,52 @@ def _reader_allocates(repo: Repo) -> Tuple[bool, str]:
             return False, f"`{short(c, 60)}` returns the shared buffer itself when the dtype already matches"
     resh = [c for c in calls_in(gi.node, nested=True) if last_attr(c) == "reshape"]
     return len(casts) >= len(resh) and len(resh) >= 3, "every branch converts with astype() (allocating)"
+
+
+def _seeding(ck: Check, repo: Repo) -> None:
+    from ..domains import conjuncts
+    fn = repo.fn("agilerl.vector.pz_async_vec_env", "AsyncPettingZooVecEnv.reset_async")
+    cfg = CFG(fn.node)
+    # the statement that replaces an absent seed by a list of None: seed = [None ...]
+    none_lists = [n for n in cfg.live_nodes() if n.kind == "stmt" and isinstance(n.ast, ast.Assign) and dotted(n.ast.targets[0]) == "seed"
+                  and any(isinstance(x, ast.Constant) and x.value is None for x in ast.walk(n.ast.value))]
+    ck.floor("C12.8", len(none_lists), 1, "replacement of an absent seed by per-environment None", fn=fn)
+    for n in none_lists:
+        atoms = [(ast.unparse(a), p) for g, pol, _ in cfg.guards_at(n) for a, p in conjuncts(g, pol)]
+        ok = ("seed is None", True) in atoms or ("seed is not None", False) in atoms
+        only_identity = all(t in ("seed is None", "seed is not None") for t, _ in atoms)
+        ck.ob("C12.8", fn, n.ast, ok and only_identity, "reset_async: the unseeded branch is taken exactly when seed is None",
+              detail=f"guards: {atoms}: a truthiness test also takes the branch for seed=0, so reset(seed=0) resets no environment with seed 0 + i", construct="reset_async: unseeded branch")
+    adds = [n for n in cfg.live_nodes() if n.kind == "stmt" and isinstance(n.ast, ast.Assign) and dotted(n.ast.targets[0]) == "seed" and isinstance(n.ast.value, ast.ListComp)
+            and any(isinstance(x, ast.BinOp) and isinstance(x.op, ast.Add) for x in ast.walk(n.ast.value.elt))]
+    for n in adds:
+        e = n.ast.value
+        gen = e.generators[0]
+        ok = isinstance(gen.iter, ast.Call) and call_name(gen.iter) == "range" and dotted(gen.iter.args[0]) == "self.num_envs" and isinstance(gen.target, ast.Name) \
+            and any(isinstance(x, ast.Name) and x.id == gen.target.id for x in ast.walk(e.elt)) and any(isinstance(x, ast.Name) and x.id == "seed" for x in ast.walk(e.elt))
+        ck.ob("C12.8", fn, n.ast, ok, "reset_async: an integer seed s becomes [s + i for i in range(num_envs)]", construct="reset_async: integer seed expansion")
+    ck.floor("C12.8", len(adds), 1, "expansion of an integer seed", fn=fn)
+
+
+def _info_masks(ck: Check, repo: Repo) -> None:
+    fn = repo.fn("agilerl.vector.pz_async_vec_env", "AsyncPettingZooVecEnv._add_info")
+    cfg = CFG(fn.node)
+    loops = [l for l in walk_no_nested(fn.node) if isinstance(l, ast.For)]
+    gets = [c for c in calls_in(fn.node) if last_attr(c) == "get" and len(c.args) == 2 and isinstance(c.args[0], ast.JoinedStr)]
+    ck.floor("C12.9", len(gets), 1, "mask look-ups with a default in _add_info", fn=fn)
+    for c in gets:
+        d = c.args[1]
+        node = cfg.node_of(c)
+        fresh = isinstance(d, ast.Call) and call_name(d) in ("np.zeros", "np.zeros_like", "np.full", "numpy.zeros", "np.array")
+        if isinstance(d, ast.Name) and node is not None:
+            # a name is acceptable when every definition that reaches the look-up lies inside the loop over the keys (allocated per key)
+            defs = cfg.defs_reaching(node, d.id)
+            inside = [any(x is getattr(df, "ast", None) for l in loops for x in ast.walk(l)) for df in defs]
+            fresh = bool(defs) and all(inside) and all(isinstance(cfg.value_of_def(df, d.id), ast.Call) for df in defs)
+        ck.ob("C12.9", fn, c, fresh, "_add_info: the default mask of a new info key is allocated for that key",
+              detail=f"default = `{short(d, 50)}`: keys first seen in the same call share one array, so setting the flag for one key sets it for the others — "
+                     "`_key[i]` reads True (with a zero filler) for an environment that never reported that key",
+              construct="_add_info: default mask of a new key")
 
 
 def _copy_mode(ck: Check, repo: Repo) -> None:
